@@ -112,7 +112,8 @@ Section C04.
   Proof. repeat split; auto. Qed.
   Lemma frame_trans a b c : frame a b -> frame b c -> frame a c.
   Proof.
-    intros (N1 & C1 & Q1 & M1 & X1) (N2 & C2 & Q2 & M2 & X2). repeat split; try congruence.
+    intros (N1 & C1 & Q1 & M1 & X1) (N2 & C2 & Q2 & M2 & X2).
+    split; [congruence|]. split; [congruence|]. split; [congruence|]. split.
     - intros t H. apply M1, M2, H.
     - intros x y. rewrite X2. apply X1.
   Qed.
@@ -120,19 +121,19 @@ Section C04.
   Proof. repeat split; auto. Qed.
   Lemma frame_set_r t v s : frame s (set_kv (rkey P t) v s).
   Proof.
-    repeat split; auto.
+    split; [reflexivity|]. split; [reflexivity|]. split; [reflexivity|]. split.
     - intros t' H. rewrite sget_set_kv_other in H; [exact H|]. intro E. eapply (ko_rc P KO); eauto.
     - intros a b. apply sget_set_kv_other. intro E. eapply (ko_rn P KO); eauto.
   Qed.
   Lemma frame_set_a t v s : frame s (set_kv (akey P t) v s).
   Proof.
-    repeat split; auto.
+    split; [reflexivity|]. split; [reflexivity|]. split; [reflexivity|]. split.
     - intros t' H. rewrite sget_set_kv_other in H; [exact H|]. intro E. eapply (ko_ac P KO); eauto.
     - intros a b. apply sget_set_kv_other. intro E. eapply (ko_an P KO); eauto.
   Qed.
   Lemma frame_del_c t s : frame s (del_kv (ckey P t) s).
   Proof.
-    repeat split; auto.
+    split; [reflexivity|]. split; [reflexivity|]. split; [reflexivity|]. split.
     - intros t' H. rewrite sget_del_kv in H. destruct (bytes_eqb _ _); [congruence | exact H].
     - intros a b. apply sget_del_kv_other. intro E. eapply (ko_cn P KO); eauto.
   Qed.
@@ -177,9 +178,10 @@ Section C04.
     intros (Vn & Vc & Ns & K & CS) H.
     apply send_packet_ok in H as (Vb & Src & [c Cd] & Nx & _ & bz & A & ->).
     assert (Vd : valid_name P (p_dst p) = true) by (eapply Vc; eauto).
-    rewrite Src in Nx.
+    assert (Vs : valid_name P (p_src p) = true) by (rewrite Src; exact Vn).
+    pose proof Nx as Nx0. rewrite Src in Nx.
     split; [exact Src|]. split; [apply validate_basic_seq; exact Vb|]. split; [exact Vd|]. split; [exact Nx|].
-    split. { rewrite <- Src. rewrite next_seq_sent, bytes_eqb_refl; try reflexivity; rewrite Src; assumption. }
+    split. { rewrite <- Src. rewrite (next_seq_sent s p bz (p_dst p) Vs Vd Nx0), bytes_eqb_refl. reflexivity. }
     split. { rewrite cseq_view_sent, bytes_eqb_refl. reflexivity. }
     split.
     { destruct (sget (ckey P (triple_of p)) s) eqn:X; [|reflexivity]. exfalso.
@@ -202,7 +204,7 @@ Section C04.
     assert (Vd : valid_name P (p_dst p) = true) by (eapply Vc; eauto).
     assert (Vs : valid_name P (p_src p) = true) by (rewrite Src; exact Vn).
     pose proof (next_seq_bound P _ _ _ _ Nx) as Bq.
-    pose proof (validate_basic_seq P _ Vb) as Nz.
+    pose proof (validate_basic_seq _ Vb) as Nz.
     split; [exact Vn|]. split; [exact Vc|]. split; [exact Ns|]. split.
     - intros d k Vd' Cp n. unfold own in *. change (st_name (sent_state P s p bz)) with (st_name s) in *.
       rewrite <- Src. rewrite next_seq_sent by assumption. rewrite sget_sent in Cp.
@@ -229,7 +231,7 @@ Section C04.
     assert (Vd : valid_name P (p_dst p) = true) by (eapply Vc; eauto).
     assert (Vs : valid_name P (p_src p) = true) by (rewrite Src; exact Vn).
     pose proof (next_seq_bound P _ _ _ _ Nx) as Bq.
-    pose proof (validate_basic_seq P _ Vb) as Nz.
+    pose proof (validate_basic_seq _ Vb) as Nz.
     unfold acked, below, own in *. change (st_name (sent_state P s p bz)) with (st_name s).
     rewrite <- Src in B |- *. split.
     - rewrite sget_sent.
@@ -288,40 +290,275 @@ Section C04.
     destruct (send_step_exact _ _ _ _ I H) as (Src & Nz & Vdp & Nx & Nx' & _ & _ & _ & _ & Nm & _ & _ & _ & Lg).
     apply send_packet_ok in H as (_ & _ & _ & _ & _ & bz & _ & ->).
     split; [exact Nm|]. eexists. split; [rewrite Lg, <- app_assoc; reflexivity|].
-    intros n0 X. cbn [sent_seqs flat_map app]. rewrite <- Src. rewrite next_seq_sent; try assumption; try (rewrite Src; assumption).
-    rewrite bytes_eqb_sym.
+    intros n0 X. cbn [sent_seqs flat_map List.app]. rewrite <- Src. rewrite next_seq_sent; try assumption; try (rewrite Src; assumption).
+    rewrite (bytes_eqb_sym (p_dst p) d).
     destruct (bytes_eqb_spec d (p_dst p)) as [->|Nd].
-    - rewrite Src, X in Nx. inversion Nx; subst n0. exists (add64 (p_seq p) 1). split; [reflexivity|].
+    - rewrite X in Nx. inversion Nx; subst n0. exists (add64 (p_seq p) 1). split; [reflexivity|].
       rewrite app_nil_r. constructor; [exact Nz | constructor].
     - exists n0. rewrite Src. split; [exact X | constructor].
   Qed.
 
-  (** ** one step preserves the combined invariant, keeps acknowledged packets acknowledged and chains the counter *)
-  Definition step_rel (s s' : cstate) : Prop :=
-    (forall d k, valid_name P d = true -> acked s d k -> acked s' d k) /\
-    (forall d, valid_name P d = true -> gap_rel d s s') /\
-    (forall j d k, valid_name P d = true -> exists l, slog s' = slog s ++ l).
-
-  Lemma inv4_call_gen s e cb s' (Q : event -> Prop) :
+  Lemma inv4_call_gen s e cb s' :
     inv4 s -> call_packet P s e cb = Ok s' ->
     inv4 s' /\ (forall d k, valid_name P d = true -> acked s d k -> acked s' d k) /\
     (forall d, valid_name P d = true -> sent_seqs d [e] = [] -> gap_rel d s s').
   Proof.
     intros I H. split; [|split].
-    - refine (proj1 (call_packet_rel_inv P inv4 (fun _ _ => True) s e cb s' _ _ _ _ I H)); auto.
+    - eapply proj1. eapply (call_packet_rel_inv P inv4 (fun _ _ => True)); [auto | auto | | | exact I | exact H].
       + intros s0 p ok s1 I0 H0. split; [eapply inv4_send; eauto | exact Logic.I].
       + intros I0. split; [eapply inv4_frame; [exact I0 | apply frame_add_log] | exact Logic.I].
     - intros d k Vd.
-      refine (proj2 (call_packet_rel_inv P inv4 (fun a b => acked a d k -> acked b d k) s e cb s' _ _ _ _ I H)); auto.
+      eapply proj2. eapply (call_packet_rel_inv P inv4 (fun a b => acked a d k -> acked b d k)); [auto | auto | | | exact I | exact H].
       + intros s0 p ok s1 I0 H0. split; [eapply inv4_send; eauto|]. intro A. eapply acked_send; eauto.
       + intros I0. split; [eapply inv4_frame; [exact I0 | apply frame_add_log]|].
         intro A. eapply acked_frame; [apply frame_add_log | exact A].
     - intros d Vd E.
-      refine (proj2 (call_packet_rel_inv P inv4 (gap_rel d) s e cb s' _ _ _ _ I H)).
-      + apply gap_refl.
-      + apply gap_trans.
+      eapply proj2. eapply (call_packet_rel_inv P inv4 (gap_rel d)); [apply gap_refl | apply gap_trans | | | exact I | exact H].
       + intros s0 p ok s1 I0 H0. split; [eapply inv4_send; eauto | eapply gap_send; eauto].
       + intros I0. split; [eapply inv4_frame; [exact I0 | apply frame_add_log]|].
         eapply gap_frame_log; [apply frame_add_log | reflexivity | exact E].
+  Qed.
+
+  (** ** the step relation used for all histories *)
+  Definition G (s s' : cstate) : Prop :=
+    inv4 s' /\ st_name s' = st_name s /\
+    (forall d k, valid_name P d = true -> acked s d k -> acked s' d k) /\
+    (forall d, valid_name P d = true -> gap_rel d s s').
+
+  Lemma G_refl s : inv4 s -> G s s.
+  Proof. intro I. split; [exact I|]. split; [reflexivity|]. split; [auto | intros; apply gap_refl]. Qed.
+
+  Lemma G_trans a b c : G a b -> G b c -> G a c.
+  Proof.
+    intros (I1 & N1 & A1 & G1) (I2 & N2 & A2 & G2). split; [exact I2|]. split; [congruence|]. split.
+    - intros d k Vd X. apply A2; [exact Vd|]. apply A1; assumption.
+    - intros d Vd. eapply gap_trans; [apply G1 | apply G2]; exact Vd.
+  Qed.
+
+  Lemma G_frame s s' l :
+    inv4 s -> frame s s' -> slog s' = slog s ++ l -> (forall d, sent_seqs d l = []) -> G s s'.
+  Proof.
+    intros I F L E. split; [eapply inv4_frame; eauto|]. split; [apply F|]. split.
+    - intros d k _ A. eapply acked_frame; eauto.
+    - intros d _. eapply gap_frame_log; eauto.
+  Qed.
+
+  Lemma G_call s e cb s' :
+    inv4 s -> (forall d, sent_seqs d [e] = []) -> call_packet P s e cb = Ok s' -> G s s'.
+  Proof.
+    intros I E H. destruct (inv4_call_gen _ _ _ _ I H) as (I' & A & Gp).
+    split; [exact I'|]. split.
+    - destruct (I) as (Vn & _). destruct (Gp _ Vn (E _)) as [Nm _]. exact Nm.
+    - split; [exact A | intros d Vd; apply Gp; [exact Vd | apply E]].
+  Qed.
+
+  Lemma G_hook s l s' : inv4 s -> hook_sends P s l = Ok s' -> G s s'.
+  Proof.
+    intros I H.
+    assert (X : inv4 s' /\ G s s').
+    { eapply (hook_sends_rel_inv P inv4 (fun a b => inv4 a -> G a b)) in H.
+      - destruct H as [I' Gx]. split; [exact I' | apply Gx; exact I].
+      - intros s0 I0. apply G_refl; exact I0.
+      - intros a b c H1 H2 Ia. pose proof (H1 Ia) as G1. eapply G_trans; [exact G1|]. apply H2. apply G1.
+      - intros s0 p ok s1 I0 H0. split; [eapply inv4_send; eauto|]. intros _.
+        split; [eapply inv4_send; eauto|].
+        destruct (send_step_exact _ _ _ _ I0 H0) as (_ & _ & _ & _ & _ & _ & _ & _ & _ & Nm & _).
+        split; [exact Nm|]. split.
+        + intros d k Vd A. eapply acked_send; eauto.
+        + intros d Vd. eapply gap_send; eauto.
+      - exact I. }
+    apply X.
+  Qed.
+
+  (** under the hypothesis an accepted receive is addressed to this chain and only writes the receipt *)
+  Lemma recv_keeper_noself env s m s1 :
+    inv4 s -> recv_keeper P env s m = Ok s1 ->
+    p_dst (fst (decode P (rm_packet m))) = st_name s /\
+    s1 = set_kv (rkey P (triple_of (fst (decode P (rm_packet m))))) receipt_value s.
+  Proof.
+    intros (Vn & Vc & Ns & _) H. apply recv_keeper_ok in H. cbv zeta in H.
+    set (p := fst (decode P (rm_packet m))) in *.
+    destruct H as (_ & V & _ & ct & bz & Cs & _ & _ & ->).
+    assert (D : p_dst p = st_name s).
+    { destruct (validate_packet_side _ _ V) as [D|S]; [exact D|]. unfold noself in Ns. rewrite <- S in Ns. congruence. }
+    split; [exact D|]. unfold recv_relay.
+    replace (bytes_eqb (p_dst p) (st_name s)) with true by (symmetry; apply bytes_eqb_eq; exact D).
+    destruct (aget (p_dst p) (st_clients s)); reflexivity.
+  Qed.
+
+  Lemma ack_keeper_noself env s m s1 :
+    inv4 s -> ack_keeper P env s m = Ok s1 ->
+    let p := fst (decode P (am_packet m)) in
+    p_src p = st_name s /\ valid_name P (p_dst p) = true /\ sget (ckey P (triple_of p)) s <> None /\
+    s1 = del_kv (ckey P (triple_of p)) s.
+  Proof.
+    intros (Vn & Vc & Ns & _) H. apply ack_keeper_ok in H. cbv zeta in H. cbv zeta.
+    set (p := fst (decode P (am_packet m))) in *.
+    destruct H as (_ & V & bz & ct & _ & E & Cd & _ & Hs).
+    change (commitment_key P (p_src p) (p_dst p) (p_seq p)) with (ckey P (triple_of p)) in *.
+    assert (S : p_src p = st_name s).
+    { destruct (validate_packet_side _ _ V) as [D|S]; [|exact S]. unfold noself in Ns. rewrite <- D in Ns. congruence. }
+    split; [exact S|]. split; [eapply Vc; eauto|]. split.
+    - destruct (sget (ckey P (triple_of p)) s); [discriminate|].
+      apply bytes_eqb_eq in E. symmetry in E. apply sha_nonempty in E. contradiction.
+    - destruct Hs as [[_ ->] | (Ns' & _)]; [reflexivity | contradiction].
+  Qed.
+
+  Lemma G_recv_handler env s m cb s' : inv4 s -> recv_handler P env s m cb = Ok s' -> G s s'.
+  Proof.
+    intros I H. apply recv_handler_ok in H. cbv zeta in H.
+    set (p := fst (decode P (rm_packet m))) in *.
+    destruct H as (s1 & relayer & RK & _ & _ & Hc).
+    destruct (recv_keeper_noself _ _ _ _ I RK) as [Dn S1]. fold p in Dn, S1.
+    assert (G1 : G s s1).
+    { subst s1. eapply (G_frame _ _ []); [exact I | apply frame_set_r | rewrite app_nil_r; reflexivity | reflexivity]. }
+    assert (W : forall s3 bz s'', inv4 s3 -> write_ack P s3 p bz = Ok s'' -> G s3 s'').
+    { intros s3 bz s'' I3 WA. apply write_ack_ok in WA as (_ & _ & _ & ->).
+      eapply (G_frame _ _ [_]); [exact I3 | | reflexivity | reflexivity].
+      eapply frame_trans; [|apply frame_add_log].
+      change (ack_key P (p_src p) (p_dst p) (p_seq p)) with (akey P (triple_of p)). apply frame_set_a. }
+    eapply G_trans; [exact G1|]. destruct G1 as (I1 & _).
+    destruct Hc as [(_ & s3 & a & bz & _ & WA & Hcb) | [(_ & _ & bz & _ & WA) | (_ & _ & ->)]].
+    - destruct Hcb as [(_ & -> & _) | (s2 & code & res & msg & CP & _ & _ & ->)]; [eapply W; eauto|].
+      destruct (code =? 0); [|eapply W; eauto].
+      assert (G2 : G s1 s2) by (eapply G_call; [exact I1 | | exact CP]; reflexivity).
+      eapply G_trans; [exact G2|]. eapply W; [apply G2 | exact WA].
+    - eapply W; eauto.
+    - apply G_refl; exact I1.
+  Qed.
+
+  Lemma G_ack_handler env s m cb1 cb2 cb3 s' :
+    inv4 s -> ack_handler P env s m cb1 cb2 cb3 = Ok s' ->
+    G s s' /\ acked s' (p_dst (fst (decode P (am_packet m)))) (p_seq (fst (decode P (am_packet m)))).
+  Proof.
+    intros I H. apply ack_handler_ok in H. cbv zeta in H.
+    set (p := fst (decode P (am_packet m))) in *.
+    destruct H as (s1 & a & AK & _ & _ & Hc).
+    destruct (ack_keeper_noself _ _ _ _ I AK) as (Src & Vd & Cp & S1). fold p in Src, Vd, Cp, S1.
+    assert (G1 : G s s1).
+    { subst s1. eapply (G_frame _ _ []); [exact I | apply frame_del_c | rewrite app_nil_r; reflexivity | reflexivity]. }
+    assert (A1 : acked s1 (p_dst p) (p_seq p)).
+    { subst s1. split.
+      - unfold own. cbn [st_name del_kv]. rewrite <- Src. apply sget_del_kv_same.
+      - eapply frame_below; [apply frame_del_c|]. destruct I as (_ & _ & _ & K & _).
+        apply K; [exact Vd|]. unfold own. rewrite <- Src. exact Cp. }
+    destruct Hc as [(Ns & _) | (_ & s2 & s3 & r & addr & C1 & _ & _ & C2 & C3)].
+    - exfalso. apply Ns. destruct G1 as (_ & Nm & _). rewrite Nm. exact Src.
+    - assert (G2 : G s1 s2) by (eapply G_call; [apply G1 | | exact C1]; reflexivity).
+      assert (G3 : G s2 s3) by (eapply G_call; [apply G2 | | exact C2]; reflexivity).
+      assert (G4 : G s3 s') by (eapply G_call; [apply G3 | | exact C3]; reflexivity).
+      split; [eapply G_trans; [exact G1|]; eapply G_trans; [exact G2|]; eapply G_trans; eauto|].
+      destruct G2 as (_ & _ & X2 & _), G3 as (_ & _ & X3 & _), G4 as (_ & _ & X4 & _).
+      apply X4, X3, X2; assumption.
+  Qed.
+
+  Lemma noself_clients s name c :
+    inv4 s -> name <> st_name s -> valid_name P name = true -> inv4 (set_clients (aset name c (st_clients s)) s).
+  Proof.
+    intros (Vn & Vc & Ns & K & CS) Nn Vname. split; [exact Vn|]. split; [|split; [|split; assumption]].
+    - intros n c0. cbn [st_clients set_clients]. rewrite aget_aset.
+      destruct (bytes_eqb_spec n name) as [->|_]; [intros _; exact Vname | apply Vc].
+    - unfold noself. cbn [st_clients set_clients st_name]. rewrite aget_aset_other; [exact Ns | congruence].
+  Qed.
+
+  Lemma gap_same_store d s s' :
+    st_name s' = st_name s -> st_store s' = st_store s -> slog s' = slog s -> gap_rel d s s'.
+  Proof.
+    intros Nm St Lg. split; [exact Nm|]. exists []. rewrite app_nil_r. split; [exact Lg|].
+    intros n0 X. exists n0. split; [|constructor].
+    rewrite <- X. unfold next_seq, sget. rewrite St. reflexivity.
+  Qed.
+
+  Lemma G_exec env s a s' : inv4 s -> act_noself (st_name s) a -> exec P env s a = Ok s' -> G s s'.
+  Proof.
+    intros I NS.
+    destruct a as [m cb|m cb1 cb2 cb3|cb|name ok| |name c ok|name c ok|addr chains addrs]; cbn [exec]; intro H.
+    - eapply G_recv_handler; eauto.
+    - eapply G_ack_handler; eauto.
+    - destruct (cb_fail cb); [discriminate|]. eapply G_hook; eauto.
+    - destruct ok; inversion H; subst; apply G_refl; exact I.
+    - inversion H; subst; apply G_refl; exact I.
+    - unfold register_client in H. destruct (valid_name P name) eqn:Vn; cbn in H; [|discriminate].
+      destruct (aget name (st_clients s)); [discriminate|]. destruct ok; inversion H; subst.
+      cbn in NS.
+      split; [apply noself_clients; assumption|]. split; [reflexivity|]. split; [intros d k _ A; exact A|].
+      intros d _. apply gap_same_store; reflexivity.
+    - unfold toggle_client in H. destruct (valid_name P name) eqn:Vn; cbn in H; [|discriminate].
+      destruct (aget name (st_clients s)) as [c0|] eqn:C0; [|discriminate].
+      destruct (c0 =? c); [discriminate|]. destruct ok; inversion H; subst.
+      assert (Nn : name <> st_name s).
+      { intros ->. destruct I as (_ & _ & Ns & _). unfold noself in Ns. congruence. }
+      split; [apply noself_clients; assumption|]. split; [reflexivity|]. split; [intros d k _ A; exact A|].
+      intros d _. apply gap_same_store; reflexivity.
+    - inversion H; subst.
+      split; [exact I|]. split; [reflexivity|]. split; [intros d k _ A; exact A|].
+      intros d _. apply gap_same_store; reflexivity.
+  Qed.
+
+  Definition ops_noself (name : bytes) (ops : list op) : Prop := Forall (fun o => act_noself name (snd o)) ops.
+
+  Lemma G_run ops : forall s, inv4 s -> ops_noself (st_name s) ops -> G s (run P s ops).
+  Proof.
+    induction ops as [|o ops IH]; intros s I NS; cbn [run]; [apply G_refl; exact I|].
+    inversion NS as [|o' ops' No Nops]; subst.
+    unfold step. destruct (exec P (fst o) s (snd o)) as [s'| |] eqn:E; cbn [fst]; try (apply IH; assumption).
+    pose proof (G_exec _ _ _ _ I No E) as G1.
+    eapply G_trans; [exact G1|]. apply IH; [apply G1|]. destruct G1 as (_ & -> & _). exact Nops.
+  Qed.
+
+  (** *** C05.ack_processed_once *)
+  Lemma ack_rejected_if_acked env s m cb1 cb2 cb3 :
+    inv4 s ->
+    acked s (p_dst (fst (decode P (am_packet m)))) (p_seq (fst (decode P (am_packet m)))) ->
+    step P s (env, AAck m cb1 cb2 cb3) = (s, false).
+  Proof.
+    intros I [A _]. unfold step. cbn [fst snd].
+    destruct (exec P env s (AAck m cb1 cb2 cb3)) as [s'| |] eqn:E; try reflexivity.
+    exfalso. cbn [exec] in E. apply ack_handler_ok in E. cbv zeta in E.
+    destruct E as (s1 & a & AK & _).
+    destruct (ack_keeper_noself _ _ _ _ I AK) as (Src & _ & Cp & _).
+    apply Cp. unfold triple_of. rewrite Src. exact A.
+  Qed.
+
+  Theorem ack_processed_once env s m cb1 cb2 cb3 s1 ops env' m' cb1' cb2' cb3' :
+    inv4 s -> exec P env s (AAck m cb1 cb2 cb3) = Ok s1 -> ops_noself (st_name s) ops ->
+    triple_of (fst (decode P (am_packet m'))) = triple_of (fst (decode P (am_packet m))) ->
+    step P (run P s1 ops) (env', AAck m' cb1' cb2' cb3') = (run P s1 ops, false).
+  Proof.
+    intros I E NS T. cbn [exec] in E.
+    destruct (G_ack_handler _ _ _ _ _ _ _ I E) as [(I1 & Nm & _) A1].
+    assert (NS1 : ops_noself (st_name s1) ops) by (rewrite Nm; exact NS).
+    destruct (G_run ops s1 I1 NS1) as (I2 & _ & A2 & _).
+    apply ack_rejected_if_acked; [exact I2|].
+    unfold triple_of in T. inversion T as [[T1 T2 T3]]. rewrite T2, T3.
+    apply A2; [|exact A1].
+    apply ack_handler_ok in E. cbv zeta in E. destruct E as (s1' & a & AK & _).
+    destruct (ack_keeper_noself _ _ _ _ I AK) as (_ & Vd & _). exact Vd.
+  Qed.
+
+  (** *** C04.send_gap_free *)
+  Theorem send_gap_free ops s d :
+    inv4 s -> ops_noself (st_name s) ops -> valid_name P d = true ->
+    inv4 (run P s ops) /\
+    exists l n0 n,
+      slog (run P s ops) = slog s ++ l /\
+      next_seq P s (st_name s) d = Ok n0 /\ next_seq P (run P s ops) (st_name s) d = Ok n /\
+      chain n0 (sent_seqs d l) n /\ cseq_view (run P s ops) d = n /\
+      (forall i x, nth_error (sent_seqs d l) i = Some x -> x = n0 + N.of_nat i /\ x < two64) /\
+      n = (n0 + N.of_nat (length (sent_seqs d l))) mod two64 /\
+      (forall k, sget (ckey P (st_name s, d, k)) (run P s ops) <> None -> k < n \/ n = 0).
+  Proof.
+    intros I NS Vd. destruct (G_run ops s I NS) as (I' & Nm & _ & Gp).
+    split; [exact I'|].
+    destruct (Gp d Vd) as (_ & l & L & H).
+    pose proof I as (_ & _ & _ & _ & CS). pose proof (CS d Vd) as N0.
+    destruct (H _ N0) as (n & N1 & Ch).
+    exists l, (cseq_view s d), n. split; [exact L|]. split; [exact N0|]. split; [exact N1|]. split; [exact Ch|].
+    pose proof (next_seq_bound P _ _ _ _ N0) as B0.
+    split.
+    { destruct I' as (_ & _ & _ & _ & CS'). pose proof (CS' d Vd) as X. rewrite Nm, N1 in X. inversion X; reflexivity. }
+    split; [apply (chain_nth _ _ _ Ch B0)|]. split; [apply (chain_final _ _ _ Ch B0)|].
+    intros k Cp. destruct I' as (_ & _ & _ & K' & _).
+    pose proof (K' d k Vd) as X. unfold own, below in X. rewrite Nm in X. apply X; assumption.
   Qed.
 End C04.
